@@ -182,6 +182,10 @@ def apply_op(sheet, op, detached):
             r = c.cssRules[i]
             c.deleteRule(i)
             detached.append(r)
+    elif kind == 'sheet_csstext':
+        # the whole text replaced - or refused (late @import, undeclared prefix, late @charset): the rules stay and stay linked
+        sheet.cssText = ['w { top: 9px } @media tv { w2 { left: 0 } }', 'z {} @import "late.css";', 'q|z {}', 'y {} @charset "utf-8";',
+                         '@page { margin: 0; @top-left { color: red } }'][op[1] % 5]
     elif kind == 'move':
         # take a rule out of one container and insert the same object into another
         c = cs[op[1] % len(cs)]
@@ -240,7 +244,7 @@ def apply_op(sheet, op, detached):
 
 OPS = ['insert_text', 'insert_obj', 'add', 'delete', 'move', 'style_text', 'style_obj', 'style_csstext', 'selector_text',
        'selectorlist_obj', 'append_selector', 'set_property', 'set_property_obj', 'rule_csstext', 'media_text', 'media_obj',
-       'append_medium', 'media_csstext', 'page_csstext']
+       'append_medium', 'media_csstext', 'page_csstext', 'sheet_csstext']
 
 
 def run_history(case):
